@@ -504,7 +504,7 @@ func TestSingleNamingFault(t *testing.T) {
 func TestTestdataFaults(t *testing.T) {
 	const test = "TestdataFaults"
 	hx.Rule(test, "the same fault enumeration on the repository's testdata files (more sites per class)")
-	for i, f := range corpus.RepoTestdata() {
+	for i, f := range corpus.Fixed() {
 		if !hx.Mine(i) {
 			continue
 		}
